@@ -28,6 +28,9 @@ fn main() {
         run_pairs(&mut c);
     }
     run_singles(&mut c);
+    if c.on("x2f") && o.big {
+        run_i2f(&mut c);
+    }
     if c.on("from") {
         run_froms(&mut c);
         run_probes(&mut c);
